@@ -35,6 +35,17 @@ def d1(ctx, prog):
         k = f'{setter.key}::{norm(n.test)[:120]}'
         tpm = astutil.parents(n.test)
         diffs = [c for c in ast.walk(n.test) if isinstance(c, ast.Call) and norm(c.func).split('.')[-1] in ('diff', 'ediff1d')]
+        closes = [c for c in ast.walk(n.test) if isinstance(c, ast.Call) and norm(c.func).split('.')[-1] in ('allclose', 'isclose')]
+        rel_bad = None
+        for c in closes:
+            rtol = next((kk.value for kk in c.keywords if kk.arg == 'rtol'), c.args[2] if len(c.args) > 2 else None)
+            on_widths = any(isinstance(x, ast.Call) and norm(x.func).split('.')[-1] in ('diff', 'ediff1d') for a in c.args[:2] for x in ast.walk(a))
+            if not on_widths and not (rtol is not None and const_value(rtol) == 0):
+                rel_bad = c
+        if rel_bad is not None:
+            ctx.fail('C13-D1', k, f'`{norm(rel_bad)[:70]}` compares edge *positions* with a relative tolerance (rtol scales with the magnitude of the edges, not with '
+                                  f'the bin width): for edges far from zero widening/narrowing/compensating edge lists pass', setter.where(n))
+            continue
         if not diffs:
             ctx.ok('C13-D1', k, 'uniformity decided by allclose/ptp (sign-insensitive)', setter.where(n))
             continue
